@@ -94,6 +94,21 @@ func runCase(t *testing.T, c *Case, sch scheduler, maxMoves int, drain bool, emi
 		}
 		rec := &calls{gated: c.Stage.Kind == "fork" && c.Stage.Gate, gates: map[int]chan struct{}{}, start: start}
 		outs := build(ctx, c.Stage, ins, rec)
+		// a SECOND INSTANCE of the same stage is alive during the whole case, with inputs of its own that nobody feeds
+		// and a context of its own: two instances share nothing, whatever is pooled or cached inside the package
+		var decoyIns []chan int
+		var decoyCancel context.CancelFunc
+		switch c.Stage.Kind {
+		case "unfold", "emit", "throttle", "seq", "stderr":
+		default:
+			var dctx context.Context
+			dctx, decoyCancel = context.WithCancel(context.Background())
+			ds := *c.Stage
+			for range ins {
+				decoyIns = append(decoyIns, make(chan int))
+			}
+			build(dctx, &ds, decoyIns, &calls{gates: map[int]chan struct{}{}, start: start})
+		}
 		c.OCaps = nil
 		for _, o := range outs {
 			c.OCaps = append(c.OCaps, o.cap)
@@ -283,6 +298,13 @@ func runCase(t *testing.T, c *Case, sch scheduler, maxMoves int, drain bool, emi
 			}
 		}
 
+		// the second instance ends now: its goroutines leave on their own, before the census
+		for _, d := range decoyIns {
+			close(d)
+		}
+		if decoyCancel != nil {
+			decoyCancel()
+		}
 		synctest.Wait()
 		c.Moves = append(c.Moves, Move{M: "end", O: "end", Now: int(time.Since(start) / tick), Live: liveGoroutines()})
 		// after the census: reveal whether the outputs are closed (ordinary receive moves, no time passes)
